@@ -256,3 +256,66 @@ func Harness_C16_InvocationHandling() {
 	vAssert("close-returns", cl.Close() == nil)
 	vCover("invocation-checked")
 }
+
+// a progress handler that is still busy when the call ends (result, error,
+// cancellation): Call returns only after the handler has finished
+func Harness_C16_CallWaitsForProgressHandler() {
+	cl, rt := vNewClient(2 * time.Second)
+	rt.auto = false
+	gate := make(chan struct{})
+	inHandler, handlerDone, returned, early := false, false, false, false
+	ctx, cancel := context.WithCancel(context.Background())
+	defer cancel()
+	progressive := vBool("use-CallProgressive")
+	done := make(chan struct{})
+	go func() {
+		defer close(done)
+		h := func(r *wamp.Result) {
+			inHandler = true
+			<-gate
+			handlerDone = true
+		}
+		if progressive {
+			sent := false
+			_, _ = cl.CallProgressive(ctx, "proc", func(ctx context.Context) (wamp.Dict, wamp.List, wamp.Dict, error) {
+				if sent {
+					return nil, nil, nil, nil
+				}
+				sent = true
+				return nil, wamp.List{1}, nil, nil
+			}, h)
+		} else {
+			_, _ = cl.Call(ctx, "proc", nil, wamp.List{1}, nil, h)
+		}
+		if inHandler && !handlerDone {
+			early = true
+		}
+		returned = true
+	}()
+	vQuiesce()
+	call, ok := vFindReq[*wamp.Call](rt)
+	vAssert("call-sent", ok)
+	if !ok {
+		close(gate)
+		return
+	}
+	rt.send(&wamp.Result{Request: call.Request, Details: wamp.Dict{"progress": true}, Arguments: wamp.List{0}})
+	vQuiesce()
+	vAssert("handler-running", inHandler && !handlerDone)
+	switch vChoice("ending", 3) {
+	case 0:
+		rt.send(&wamp.Result{Request: call.Request, Details: wamp.Dict{}, Arguments: wamp.List{"final"}})
+	case 1:
+		rt.send(&wamp.Error{Type: wamp.CALL, Request: call.Request, Error: "some.error", Details: wamp.Dict{}})
+	case 2:
+		cancel()
+		vQuiesce()
+		rt.send(&wamp.Error{Type: wamp.CALL, Request: call.Request, Error: wamp.ErrCanceled, Details: wamp.Dict{}})
+	}
+	vQuiesce()
+	vAssert("call-does-not-return-while-its-progress-handler-runs", !returned)
+	close(gate)
+	<-done
+	vAssert("handler-finished-before-return", handlerDone && !early)
+	vCover("call-waited-for-handler")
+}
